@@ -21,6 +21,8 @@
                                                   serialized" skip, memo-less dependency skipped)
      function/memo.rs (mod persistence)           MappedMemo / with_origin: value, verified_at,
                                                   revisions with the flattened origin
+     function.rs:flattened_untracked_dependency   (fix e43c20c) a Derived memo whose flattening expanded
+                                                  a DerivedUntracked dependency is serialised untracked
      runtime.rs:deserialize_from                  only `revisions` is restored
      input.rs (mod persistence)                   every input slot with stamps and durabilities
    Not restored: cancellation count, lru order and capacity set at run time, memos of
@@ -475,7 +477,9 @@ Definition flatten_full (mm : qkey -> option memo) (fuel : nat) (edges : list ed
 Definition flatten (mm : qkey -> option memo) (fuel : nat) (edges : list edge) : list edge :=
   fst (flatten_full mm fuel edges).
 
-(* ghost, for classifying runs: some dependency that was flattened away had untracked reads *)
+(* persistence::flattened_untracked_dependency (fix e43c20c): some dependency that was expanded
+   — the visited set, which function ingredients extend with every edge whose memo they expand
+   and which is cleared after every serialised memo — has a DerivedUntracked origin *)
 Definition lost_untracked (mm : qkey -> option memo) (fuel : nat) (edges : list edge) : bool :=
   existsb (fun e => match e with
                     | EQ g => match mm g with Some m => m_untracked m | None => false end
@@ -489,7 +493,9 @@ Record image := {
   i_memo : qkey -> option memo         (* the serialised memos *)
 }.
 
-(* Memo::should_serialize + with_origin *)
+(* Memo::should_serialize + with_origin.  The serialised origin of a Derived memo is
+   `derived_untracked` when flattening expanded a dependency with untracked reads (its leaves
+   cannot stand for it), `derived` otherwise; a DerivedUntracked memo stays untracked. *)
 Definition snap_memo (mm : qkey -> option memo) (fuel : nat) (q : qkey) : option memo :=
   match mm q with
   | Some m =>
@@ -497,7 +503,8 @@ Definition snap_memo (mm : qkey -> option memo) (fuel : nat) (q : qkey) : option
       | Some _ =>
           if pfam (fst q) then
             Some {| m_val := m_val m; m_verified := m_verified m; m_changed := m_changed m;
-                    m_dur := m_dur m; m_untracked := m_untracked m;
+                    m_dur := m_dur m;
+                    m_untracked := m_untracked m || lost_untracked mm fuel (m_edges m);
                     m_edges := flatten mm fuel (m_edges m) |}
           else None
       | None => None
